@@ -58,8 +58,15 @@ package masks
 //@   requires recv != nil
 //@   ensures [unknown-fields] old(recv.updateMask) != nil && !pathsvalid(old(recv.updateMask.Paths), m) && !isnil(m) ==> err != nil
 //@   ensures [reset-mask] old(recv.resetMask) != nil && !pathsvalid(old(recv.resetMask.Paths), m) && !isnil(m) ==> err != nil
+//@   // C05 "fields outside W are rejected": every path of the update mask is tested against the writable fields on its own
+//@   // (one intersection per path; an empty one rejects), not by comparing path counts of one overall intersection
+//@   track Intersect
+//@   ensures [each-path-checked] err == nil && old(recv.updateMask) != nil && old(recv.writableFields) != nil ==> calls(Intersect) == old(calls(Intersect)) + len(old(recv.updateMask.Paths))
+//@   replay [each-path-checked] UpdateMaskOutsideWritable()
 //@   ensures [masks-kept] recv.updateMask == old(recv.updateMask) && recv.writableFields == old(recv.writableFields) && recv.resetMask == old(recv.resetMask)
 //@   modifies FieldUpdater.intersectionMask
+//@   loop 0 (k):
+//@     invariant 0 <= k && k <= len(recv.updateMask.Paths) && calls(Intersect) == old(calls(Intersect)) + k && recv.updateMask == old(recv.updateMask) && recv.writableFields == old(recv.writableFields) && recv.resetMask == old(recv.resetMask)
 //@
 //@ // Merge writes only the two messages it is given (dst: the new value being built; src: the caller's message, which it
 //@ // filters in place); with an empty writable set or an empty (non-nil) update mask it writes nothing at all
